@@ -66,6 +66,14 @@ func (k c03Kind) render(w *gen.World) []byte {
 }
 
 // c03Eval serves the altered response and applies the oracle. class is the stable alteration class.
+// variantOrExact spells a member name exactly or in another letter case.
+func variantOrExact(t *rapid.T, key string) string {
+	if rapid.IntRange(0, 2).Draw(t, "exactSpelling") > 0 {
+		return key
+	}
+	return rapid.SampledFrom(gen.FoldVariants(key)).Draw(t, "extraSpelling")
+}
+
 func c03Eval(t gen.TB, w *gen.World, k c03Kind, resp gen.Response, class, desc string) {
 	u := k.url(w)
 	saved := w.Resp[u]
@@ -522,6 +530,8 @@ func TestC03(t *testing.T) {
 		"exact-key-unsigned-other-key-signed-after", "exact-key-unsigned-other-key-signed-before", "exact-key-unsigned-other-key-signed-after",
 		"foreign-signer-not-yet-valid", "foreign-signer-expired", "foreign-signer-not-yet-valid-header-genuine-root",
 		"id-and-version-of-the-other-document", "other-document-in-this-position", "version-with-a-fraction", "version-with-a-fraction",
+		"signature-matches-bytes-parked-in-the-other-response", "signature-matches-bytes-parked-in-the-other-response",
+		"header-escaped-very-many-times",
 		"control-canonical",
 	}
 	gen.Prop(t, "alterations", gen.N(6000, 250000), func(t *rapid.T) {
@@ -760,6 +770,28 @@ func TestC03(t *testing.T) {
 				ok = kindTcb
 			}
 			resp.Body = gen.SignedBody(k.member, ok.render(w), signer.Key)
+		case "signature-matches-bytes-parked-in-the-other-response":
+			// this response: a document the signature does NOT match (the signature is the genuine one, over other
+			// bytes); the bytes it does match travel as an unsigned extra member of the same name in the OTHER response
+			resp.Body = gen.WrapBody(k.member, unsignedRaw, sigHex)
+			other := kindQe
+			if k.name == "qe" {
+				other = kindTcb
+			}
+			ou := other.url(w)
+			ob := bytes.TrimSpace(w.Resp[ou].Body)
+			if len(ob) > 2 && ob[0] == '{' {
+				extra := mem(variantOrExact(t, k.member), signedRaw)
+				var nb []byte
+				if rapid.Bool().Draw(t, "extraMemberFirst") {
+					nb = append([]byte("{"+extra+","), ob[1:]...)
+				} else {
+					nb = append(append([]byte{}, ob[:len(ob)-1]...), []byte(","+extra+"}")...)
+				}
+				r := w.Resp[ou]
+				r.Body = nb
+				w.Resp[ou] = r
+			}
 		case "missing-member":
 			resp.Body = body(sigm("signature", sigHex))
 		case "missing-signature":
@@ -787,6 +819,18 @@ func TestC03(t *testing.T) {
 			at := rapid.IntRange(0, 2).Draw(t, "blockAt")
 			parts = append(parts[:at], append([]string{blk}, parts[at:]...)...)
 			resp.Header = map[string][]string{k.hdr: {url.QueryEscape(strings.Join(parts, ""))}}
+		case "header-escaped-very-many-times":
+			// a few hundred kilobytes of header: a line feed (or the genuine chain) percent-encoded tens of thousands of
+			// times over - %25 is the escape of the escape character. One round of decoding leaves no certificate.
+			n := rapid.SampledFrom([]int{20000, 100000, 150000}).Draw(t, "escapeLevels")
+			tail := "0A"
+			if rapid.Bool().Draw(t, "genuineChainInside") {
+				tail = strings.TrimPrefix(hdrVal, "%") // (the genuine header value starts with an escaped dash)
+				if tail == hdrVal {
+					tail = "0A" + hdrVal
+				}
+			}
+			resp.Header = map[string][]string{k.hdr: {"%" + strings.Repeat("25", n) + tail}}
 		case "header-not-escaped":
 			resp.Header = map[string][]string{k.hdr: {string(gen.ChainPEM(signer, w.PKI.Root))}}
 		case "header-swapped-order":
